@@ -235,7 +235,7 @@ def r13_5_abi_text_setters(ctx):
     from rules.abicommon import AbiWorld
 
     ctx.rule("R13.5", "ABI string / byte values set from Python text or bytes hold exactly that text: String.set(str) stores the uint16 length of the UTF-8 encoding followed by the UTF-8 encoding of the string as given (no normalisation, no re-encoding), String.set(bytes) / DynamicBytes.set(bytes) the length and the bytes, StaticBytes.set(bytes) / Address.set(bytes) the bytes - for ASCII, precomposed and decomposed accents, compatibility characters, emoji, NUL and the empty string")
-    texts = ["", "abc", "café", "café", "Å", "가", "\U0001f600", "a\x00b", 'q"\\\n', "ﬁ"]
+    texts = ["", "abc", "café", "café", "Å", "가", "\U0001f600", "a\x00b", 'q"\\\n', "ﬁ", "x" * 254, "x" * 255, "y" * 256, "z" * 300, "w" * 511, "\u00e9" * 128, "v" * 65535]
     for cname, module, mk in (("String", "pyteal.ast.abi.string", lambda t: t), ("String", "pyteal.ast.abi.string", lambda t: t.encode("utf-8")), ("DynamicBytes", "pyteal.ast.abi.array_dynamic", lambda t: t.encode("utf-8"))):
         c = ctx.model.try_class(cname)
         if c is None:
@@ -247,7 +247,7 @@ def r13_5_abi_text_setters(ctx):
             arg = mk(t)
             enc = t.encode("utf-8")
             want = len(enc).to_bytes(2, "big") + enc
-            construct = f"{cname}.set({type(arg).__name__} {t!r})"
+            construct = f"{cname}.set({type(arg).__name__} {t!r})" if len(t) <= 20 else f"{cname}.set({type(arg).__name__} {t[:1]!r} * {len(t)})"
 
             def extra(e, me):
                 if isinstance(e, ast.Call) and u(e.func).endswith('from_string("uint16").encode') or (isinstance(e, ast.Call) and u(e.func) == "ABIType.from_string('uint16').encode"):
@@ -267,7 +267,7 @@ def r13_5_abi_text_setters(ctx):
             if isinstance(res, Rec) and res.kind == "call" and res.args and isinstance(res.args[0], Rec) and res.args[0].is_call("Bytes") and res.args[0].args:
                 payload = res.args[0].args[0]
             ok = isinstance(payload, (bytes, bytearray)) and bytes(payload) == want
-            ctx.check(ok, "R13.5", construct, f"stores Bytes({payload!r}); the value given is {want!r} (uint16 length + UTF-8 of the text as written)", c.where, fact={"stored": repr(payload)[:60]})
+            ctx.check(ok, "R13.5", construct, f"stores Bytes({repr(payload)[:60]}); the value given is {repr(want)[:60]} (uint16 length {len(want) - 2} + UTF-8 of the text as written)", c.where, fact={"stored": repr(payload)[:60]})
     ctx.require_min("R13.5", 20)
 
 
